@@ -13,7 +13,7 @@ pub fn plan() -> Plan {
         meta: EvMeta {
             property: "C17",
             level: "exploration",
-            rule: "a corpus of directories written by the PINNED tree (corpus_gen built against a worktree of the pinned commit; key sizes 4/8/16/32, no bloom / two small bloom configs / pearl's default bloom config (filters of ~760 KiB per blob), 1-4 blobs, metas, deletion markers, multi-version keys, values up to 4.5 KB) is committed together with the answers the pinned tree itself gave after a restart (read bytes digest, contains, read_all_with_deletion_marker with data digests and metas, read_with per meta, check_filters, counts). For every directory and EVERY subset of removed index files the current tree opens a copy (eager and lazy init) and must give identical answers; then all filter buffers are off-loaded and the filter answers and reads must still be identical (hash function and bit order compatibility). Mismatch cases on copies: blob header version patched, index header version patched, directory opened with another key size: no query may return data from the mismatching blob; the mismatch must surface as an init error of validation kind or as an intact quarantine with corrupted_blobs_count incremented (an index version mismatch may instead fall back to regeneration with identical answers). exhaustive over the committed corpus x index subsets. Non-trivial = case with at least one index file removed or a mismatch patch; distinct = (directory, subset/patch, init flavour).",
+            rule: "a corpus of directories written by the PINNED tree (corpus_gen built against a worktree of the pinned commit; key sizes 4/8/16/32, no bloom / two small bloom configs / pearl's default bloom config (filters of ~760 KiB per blob), 1-4 blobs, metas, deletion markers, multi-version keys, values up to 4.5 KB) is committed together with the answers the pinned tree itself gave after a restart (read bytes digest, contains, read_all_with_deletion_marker with data digests and metas, read_with per meta, check_filters, counts), plus 552 bloom vectors (the serialised filter the pinned tree built for one key of every length 1..80 and some up to 1000, three byte patterns, two filter geometries: the current tree must build the byte-identical filter and find the key in the recorded one). For every directory and EVERY subset of removed index files the current tree opens a copy (eager and lazy init) and must give identical answers; then all filter buffers are off-loaded and the filter answers and reads must still be identical (hash function and bit order compatibility). Mismatch cases on copies: blob header version patched, index header version patched, directory opened with another key size: no query may return data from the mismatching blob; the mismatch must surface as an init error of validation kind or as an intact quarantine with corrupted_blobs_count incremented (an index version mismatch may instead fall back to regeneration with identical answers). exhaustive over the committed corpus x index subsets. Non-trivial = case with at least one index file removed or a mismatch patch; distinct = (directory, subset/patch, init flavour).",
             assumptions: vec!["the corpus under /verif/corpus was produced by tools/gen_corpus.sh from the pinned commit recorded in corpus/PINNED_COMMIT", "answers recorded by the pinned tree are taken as the reference"],
         },
         shards: 16,
@@ -412,9 +412,87 @@ fn record_mismatch(ctx: &Ctx, sh: &mut Shard, name: &str, what: &str, r: Result<
     }
 }
 
+fn vector_key(len: usize, pattern: u64) -> Vec<u8> {
+    match pattern {
+        0 => (0..len).map(|i| ((i * 37 + len * 11 + 5) & 0xff) as u8).collect(),
+        1 => vec![0xFF; len],
+        _ => {
+            let mut k = vec![0u8; len];
+            k[len - 1] = 1;
+            k
+        }
+    }
+}
+
+/// Bloom vectors: filters of the pinned tree holding exactly one key (key lengths 1..80 and some up to 1000, three
+/// byte patterns, two filter geometries). The current tree must (a) build the byte-identical serialised filter for
+/// the same key and configuration - same hash function for every length class, same bit order, same serialisation -
+/// and (b) find the key in the recorded filter after `from_raw`, and must not find 40 other keys more often than the
+/// recorded filter's own geometry allows (a filter read back with all bits set would pass (b) alone).
+fn bloom_vectors(ctx: &Ctx, sh: &mut Shard, corpus: &Path) {
+    let v: Value = match crate::evidence::read_json(&corpus.join("bloom_vectors.json")) {
+        Some(v) => v,
+        None => {
+            sh.inconclusive.push("corpus/bloom_vectors.json unreadable".into());
+            return;
+        }
+    };
+    let cfgs = [
+        BloomConfig { elements: 50, hashers_count: 2, max_buf_bits_count: 1001, buf_increase_step: 7, preferred_false_positive_rate: 0.01 },
+        BloomConfig { elements: 30, hashers_count: 5, max_buf_bits_count: 333, buf_increase_step: 13, preferred_false_positive_rate: 0.001 },
+    ];
+    let unhex = |h: &str| -> Vec<u8> { (0..h.len() / 2).filter_map(|i| u8::from_str_radix(&h[2 * i..2 * i + 2], 16).ok()).collect() };
+    for e in v["vectors"].as_array().cloned().unwrap_or_default() {
+        let (ci, len, pattern) = (e["cfg"].as_u64().unwrap_or(0) as usize, e["len"].as_u64().unwrap_or(1) as usize, e["pattern"].as_u64().unwrap_or(0));
+        let recorded = unhex(e["raw"].as_str().unwrap_or(""));
+        let key = vector_key(len, pattern);
+        let name = format!("bloom-vector cfg{} len{} pattern{}", ci, len, pattern);
+        sh.evaluations += 1;
+        sh.add("bloom_vectors_compared", 1);
+        sh.nontrivial.insert(fnv(name.as_bytes()));
+        let r = std::panic::catch_unwind(|| -> Result<(), (String, String)> {
+            let b = pearl::Bloom::new(cfgs[ci.min(1)].clone());
+            b.add(&key).map_err(|e| ("bloom-vector/add-failed".to_string(), format!("{:#}", e)))?;
+            let raw = b.to_raw().map_err(|e| ("bloom-vector/to_raw-failed".to_string(), format!("{:#}", e)))?;
+            if raw != recorded {
+                let at = raw.iter().zip(recorded.iter()).position(|(a, b)| a != b).unwrap_or(raw.len().min(recorded.len()));
+                return Err(("bloom-vector/serialised-filter-differs".to_string(), format!("the filter built for a {}-byte key differs from the one the pinned tree built (first difference at byte {} of {} / {})", len, at, raw.len(), recorded.len())));
+            }
+            let old = pearl::Bloom::from_raw(&recorded).map_err(|e| ("bloom-vector/from_raw-failed".to_string(), format!("{:#}", e)))?;
+            if old.contains_in_memory(&key) != Some(pearl::FilterResult::NeedAdditionalCheck) {
+                return Err(("bloom-vector/recorded-filter-false-negative".to_string(), format!("the pinned tree's filter no longer contains its {}-byte key", len)));
+            }
+            let mut hits = 0;
+            for o in 0..40u64 {
+                let mut other = key.clone();
+                other[0] ^= (o as u8).wrapping_mul(7).wrapping_add(1);
+                other.push(o as u8);
+                if old.contains_in_memory(&other) != Some(pearl::FilterResult::NotContains) {
+                    hits += 1;
+                }
+            }
+            if hits > 8 {
+                return Err(("bloom-vector/recorded-filter-answers-maybe-for-everything".to_string(), format!("{} of 40 other keys are reported as possibly present in a filter holding one key", hits)));
+            }
+            Ok(())
+        });
+        match r {
+            Ok(Ok(())) => {}
+            Ok(Err((sig, d))) => sh.violation(&ctx.known, "C17", ctx.seed, &format!("C17/{}", sig), &format!("{}: {}", name, d), json!({"check": "c17-bloom-vector", "vector": name})),
+            Err(_) => {
+                let p = crate::runner::take_panics();
+                sh.violation(&ctx.known, "C17", ctx.seed, "C17/bloom-vector/panic", &format!("{}: {:?}", name, p.last()), json!({"check": "c17-bloom-vector", "vector": name}));
+            }
+        }
+    }
+}
+
 pub fn shard(ctx: &Ctx) -> Shard {
     let mut sh = Shard::default();
     let corpus: PathBuf = verif_root().join("corpus");
+    if ctx.shard == ctx.shards - 1 {
+        bloom_vectors(ctx, &mut sh, &corpus);
+    }
     let mut dirs: Vec<PathBuf> = match std::fs::read_dir(&corpus) {
         Ok(rd) => rd.flatten().map(|e| e.path()).filter(|p| p.is_dir() && p.join("answers.json").exists()).collect(),
         Err(e) => {
